@@ -30,7 +30,7 @@ def fault_plans(workdir, F, n1=6, n2=4, delay=3, blackouts=True):
     with open(cfg, "w") as f:
         f.write("SPECIFICATION Spec\nCONSTANT N1 = %d\nCONSTANT N2 = %d\nCONSTANT F = %d\nCONSTANT Delay = %d\nCONSTANT Blackouts = %s\n"
                 "INVARIANT Emit\nCHECK_DEADLOCK FALSE\n" % (n1, n2, F, delay, "TRUE" if blackouts else "FALSE"))
-    r = tlc.run("/verif/spec/FaultPlans.tla", cfg, os.path.join(workdir, "tlc-plans"), workers=1, timeout=1200)
+    r = tlc.run(common.VERIF + "/spec/FaultPlans.tla", cfg, os.path.join(workdir, "tlc-plans"), workers=1, timeout=1200)
     plans = []
     for tag, v in tlc.tagged(r.text, ("PLAN",)):
         plan, cut, d = v
@@ -172,7 +172,7 @@ def _shard(args):
             f.write(json.dumps(l) + "\n")
     res = {"viol": [], "drift": [], "dviol": [], "ddrift": [], "runs": len([l for l in tr if l["a"] == "Reset"]), "events": len(tr), "devents": len(dev)}
     if tr:
-        r = tlc.run("/verif/spec/trace/CfdpTrace.tla", "/verif/spec/trace/CfdpTrace.cfg", os.path.join(work, "tlc-%d" % k),
+        r = tlc.run(common.VERIF + "/spec/trace/CfdpTrace.tla", common.VERIF + "/spec/trace/CfdpTrace.cfg", os.path.join(work, "tlc-%d" % k),
                     workers=1, xmx="3g", timeout=3600, env={"TRACE": tpath}, jvm=JVM)
         consumed = None
         for tag, v in tlc.tagged(r.text, ("VIOL", "DRIFT", "CONSUMED")):
@@ -185,7 +185,7 @@ def _shard(args):
         if consumed is None or consumed[0] != consumed[1]:
             raise common.ToolError("Level D trace %s not fully consumed: %s\n%s" % (tpath, consumed, "\n".join(r.text.splitlines()[-25:])))
     if dev:
-        r = tlc.run("/verif/spec/trace/DaemonTrace.tla", "/verif/spec/trace/DaemonTrace.cfg", os.path.join(work, "tlcd-%d" % k),
+        r = tlc.run(common.VERIF + "/spec/trace/DaemonTrace.tla", common.VERIF + "/spec/trace/DaemonTrace.cfg", os.path.join(work, "tlcd-%d" % k),
                     workers=1, xmx="2g", timeout=3600, env={"TRACE": dpath}, jvm=JVM)
         consumed = None
         for tag, v in tlc.tagged(r.text, ("VIOL", "DRIFT", "CONSUMED")):
